@@ -144,7 +144,7 @@ class SQLParser:
         if scanner.search_and_move_two_type_str_use_upper("INSERT", "INTO"):
             return node.ASTInsertType(enum=static.EnumInsertType.INSERT_INTO)
         if scanner.search_and_move_three_type_str_use_upper("INSERT", "IGNORE", "INTO"):
-            return node.ASTInsertType(enum=static.EnumInsertType.INSERT_INTO)
+            return node.ASTInsertType(enum=static.EnumInsertType.INSERT_IGNORE_INTO)
         if scanner.search_and_move_two_type_str_use_upper("INSERT", "OVERWRITE"):
             return node.ASTInsertType(enum=static.EnumInsertType.INSERT_OVERWRITE)
         raise SqlParseError(f"未知的 INSERT 类型: {scanner}")
